@@ -1774,6 +1774,23 @@ lyd_diff_merge_create(struct lyd_node **diff_match, struct lyd_node **diff, enum
                 LY_CHECK_RET(r);
                 LY_CHECK_RET(lyd_new_meta(ctx, src_dup, NULL, "yang:operation", lyd_diff_op2str(LYD_DIFF_OP_REPLACE), LYD_NEW_VAL_STORE_ONLY, NULL));
             }
+        } else if ((src_diff->schema->nodetype & LYD_NODE_ANY) && (*diff_match)->schema &&
+                lyd_compare_single(*diff_match, src_diff, 0)) {
+            char *any_str = NULL;
+
+            /* we deleted it, but it was created with a different value -> operation REPLACE */
+            LY_CHECK_RET(lyd_diff_change_op(*diff_match, LYD_DIFF_OP_REPLACE));
+
+            /* current value is the previous one (meta) */
+            LY_CHECK_RET(lyd_any_value_str(*diff_match, &any_str));
+            r = lyd_new_meta(LYD_CTX(src_diff), *diff_match, NULL, "yang:orig-value", any_str ? any_str : "",
+                    LYD_NEW_VAL_STORE_ONLY, NULL);
+            free(any_str);
+            LY_CHECK_RET(r);
+
+            /* update the value itself */
+            LY_CHECK_RET(lyd_any_copy_value(*diff_match, &((struct lyd_node_any *)src_diff)->value,
+                    ((struct lyd_node_any *)src_diff)->value_type));
         } else {
             /* deleted + created -> operation NONE */
             LY_CHECK_RET(lyd_diff_change_op(*diff_match, LYD_DIFF_OP_NONE));
